@@ -25,7 +25,7 @@ pub open spec fn expected_blocklisted(it: &Item, ctx: &BindgenContext) -> bool {
 UNIT = {
     "name": "blocklist",
     "env": [os.path.join(ENV, "blocklist_env.rs")],
-    "declared_trusted": {r"external_body": 20},
+    "declared_trusted": {r"external_body": 30},
     "items": [
         {"kind": "enum", "file": "bindgen/ir/item_kind.rs", "name": "ItemKind"},
         {"kind": "raw", "label": "blocklist_spec", "text": SPEC},
@@ -36,5 +36,23 @@ UNIT = {
              ("blocklisted_files.matches(filename)", "blocklisted_files.matches_owned(filename)", 1, "R12 generic S instantiated"),
          ],
          "ensures": ["r == expected_blocklisted(self, ctx)"]},
+        {"kind": "fn", "file": "bindgen/codegen/mod.rs", "name": "process_before_codegen", "impl": r"^impl Item$", "impl_header": "impl Item", "impl_name": "Item", "ret": "r",
+         "requires": ["ctx.s_in_codegen()"],
+         "ensures": [
+             # C10: the blocklist test comes before any code generation of the item
+             "expected_blocklisted(self, ctx) ==> !r",
+             "r == (self.s_enabled(ctx) && !expected_blocklisted(self, ctx) && !old(result).seen_items@.contains(self.id))",
+             "final(result).items@ == old(result).items@",
+             "!r ==> *final(result) == *old(result)",
+         ]},
+        {"kind": "fn", "file": "bindgen/codegen/mod.rs", "name": "codegen", "impl": r"^impl CodeGenerator for Item$", "impl_header": "impl Item", "impl_name": "Item", "ret": "r_unit",
+         "subst": [("result: &mut CodegenResult<'_>", "result: &mut CodegenResult", 1, "R12 lifetime")],
+         "requires": ["ctx.s_in_codegen()"],
+         "ensures": [
+             # "A blocklisted type, function, variable or file is never defined in the output"
+             "expected_blocklisted(self, ctx) ==> *final(result) == *old(result)",
+             # nor is an item disabled for code generation, nor one already generated (no duplicate definitions)
+             "(!self.s_enabled(ctx) || old(result).seen_items@.contains(self.id)) ==> *final(result) == *old(result)",
+         ]},
     ],
 }
